@@ -399,6 +399,63 @@ def long_histories(rng, tier):
     return events
 
 
+def grammar_histories(rng, tier):
+    """Queries on a GRAMMAR object (total weights with various tolerances / iteration caps, string weights, prefix
+    weights, transformations) after other queries on the same object; every answer is compared with a pristine copy."""
+    events = []
+    queries = {
+        "treesum": lambda g: vrepr(g.treesum()),
+        "agenda": lambda g: repr(sorted((repr(k), vrepr(v)) for k, v in g.agenda().items() if v != g.R.zero)),
+        "naive": lambda g: repr(sorted((repr(k), vrepr(v)) for k, v in g.naive_bottom_up().items() if v != g.R.zero)),
+        "call": lambda g: repr([vrepr(g(s)) for s in fam.strings(g.V, 2)]),
+        "prefix_weight": lambda g: repr([vrepr(g.prefix_weight(s)) for s in fam.strings(g.V, 1)]),
+        "cnf_size": lambda g: repr(len(g.cnf.rules)),
+        "trim_size": lambda g: repr(len(g.trim().rules)),
+        "null_weight": lambda g: repr(sorted((repr(k), vrepr(v)) for k, v in g.null_weight().items() if v != g.R.zero)),
+    }
+    from fractions import Fraction
+    for gi in range(24 if tier == "quick" else 200):
+        srn, shape = [("Sat3", "any"), ("Rat", "acyclic"), ("Bool", "any"), ("Rat", "pcfg")][gi % 4]
+        R = gops.SR[srn]
+        if shape == "pcfg":
+            # a recursive sub-stochastic grammar (per-head weights sum to 9/10): total weights are limits, so the
+            # tolerance and iteration cap of EARLIER calls must not leak into later ones
+            # clearly sub-critical (mean offspring well below one), so the iteration converges in a few dozen rounds
+            x, y = rng.choice([(3, 6), (2, 7), (1, 4), (3, 5)])
+            g0 = fam.build_cfg(R, [(Fraction(x, 10), "S", ("S", "S")), (Fraction(y, 10), "S", ("a",)),
+                                   (Fraction(1, 2), "A", ("b",)), (Fraction(2, 5), "A", ("S", "b"))]
+                               + ([(Fraction(1, 20), "S", ("A",))] if rng.random() < 0.5 else []))
+        else:
+            g0 = fam.rand_cfg(rng, R, shape=shape, nN=3, nrules=5)
+        G, _ = cfg_proj(g0)
+        for hi in range(3):
+            pre = [rng.choice(gops.CFG_PRE) for _ in range(rng.randint(1, 3))]
+            qn = rng.choice(list(queries))
+            if shape == "pcfg":
+                pre = [rng.choice(["treesum_tol", "agenda_tol", "treesum_maxiter", "agenda_maxiter", "treesum", "trim"])
+                       for _ in range(rng.randint(1, 2))]
+                qn = rng.choice(["treesum", "agenda", "null_weight", "cnf_size"])
+            e = {"op": "query", "kind": "grammar", "role": "grammar", "obj": "CFG", "q": "transform", "p": [], "before": [],
+                 "after": [], "hid": f"g{gi}", "site": f"CFG.{qn}[after {'+'.join(pre)}]"[:80], "feat": "grammar-history",
+                 "call": {"fn": "ghist", "args": {"sr": srn, "G": G, "pre": pre, "query": qn}}}
+            def mk(pre_):
+                if shape != "pcfg":
+                    return gops.build(G, srn, "str", pre_)
+                g = gops.build(G, srn, "str")
+                gf = g.spawn()                       # float weights: limits are approximated, as in ordinary use
+                for r in g.rules:
+                    gf.add(float(r.w), r.head, *r.body)
+                return gops.warm_cfg(gf, pre_)
+            try:
+                used = gops.guarded(lambda: queries[qn](mk(pre)), 60)
+                pristine = gops.guarded(lambda: queries[qn](mk(None)), 60)
+                e["same"] = used == pristine
+            except Exception as ex:  # noqa: BLE001
+                e["exc"] = type(ex).__name__
+            events.append(e)
+    return events
+
+
 # ---------------------------------------------------------------------------
 # purity of queries and transformations
 
@@ -485,7 +542,7 @@ def selftests(events, rng):
 def run(report, tier, seed):
     rng = random.Random(seed + 5)
     events = (walk(report, rng, tier) + histories(rng, tier) + positive_histories(rng, tier) + long_histories(rng, tier)
-              + purity(rng, tier))
+              + grammar_histories(rng, tier) + purity(rng, tier))
     for e in events:
         report.case(e, trivial=())
     judge(report, MODULE, events, relevant=RELEVANT)
